@@ -34,6 +34,7 @@ func runC13(p *Prog, r *Report) {
 	c13Shapes(p, r)
 	c13FnVocabulary(p, r)
 	c13UseNumber(p, r)
+	exactNumberSites(p, r, "R13.3-untyped-decode-sites")
 	c13ImplicitEntity(p, r)
 }
 
@@ -316,4 +317,99 @@ func c13ImplicitEntity(p *Prog, r *Report) {
 	sort.Strings(got)
 	r.Check(w.Kind == "object" && "["+strings.Join(got, ",")+"]" == keys, rule, "exptypes.coerceEntityUID~ImplicitlyMarshaledEntityUID", p.pos(ce.Pos()), "implicit entity keys "+keys+" are the ones coercion looks up",
 		"the implicit entity form is written with keys "+keys+" but schema-guided coercion looks up ["+strings.Join(got, ",")+"]")
+}
+
+// exactNumberSites: every place where JSON is decoded into an untyped target (any, []any, map[string]any): numbers
+// arrive there as float64 — exact only up to 2^53 — unless the decoder was told to keep them as json.Number. Such a site
+// is accepted when UseNumber() was called on the same decoder before Decode, or when the function never takes a number
+// out of the decoded value (no assertion to a numeric type). Applies to every non-test-support package.
+func exactNumberSites(p *Prog, r *Report, rule string) {
+	hasAny := func(t types.Type) bool {
+		var rec func(t types.Type, d int) bool
+		rec = func(t types.Type, d int) bool {
+			if d > 4 {
+				return false
+			}
+			switch u := types.Unalias(t).Underlying().(type) {
+			case *types.Interface:
+				return u.NumMethods() == 0
+			case *types.Slice:
+				return rec(u.Elem(), d+1)
+			case *types.Map:
+				return rec(u.Elem(), d+1)
+			case *types.Pointer:
+				return rec(u.Elem(), d+1)
+			}
+			return false
+		}
+		return rec(t, 0)
+	}
+	n := 0
+	for _, fn := range p.Funcs {
+		if testSupportPkgs[fnPkgPath(fn)] {
+			continue
+		}
+		var useNums []*ssa.Call
+		for _, c := range callsIn(fn) {
+			if call, ok := c.(*ssa.Call); ok {
+				if f := call.Call.StaticCallee(); f != nil && fnPkgPath(f) == "encoding/json" && fnShort(f) == "Decoder.UseNumber" {
+					useNums = append(useNums, call)
+				}
+			}
+		}
+		for _, c := range callsIn(fn) {
+			call, ok := c.(*ssa.Call)
+			if !ok {
+				continue
+			}
+			f := call.Call.StaticCallee()
+			if f == nil || fnPkgPath(f) != "encoding/json" {
+				continue
+			}
+			var target ssa.Value
+			isDecode := false
+			switch fnShort(f) {
+			case "Unmarshal":
+				target = call.Call.Args[1]
+			case "Decoder.Decode":
+				target, isDecode = call.Call.Args[1], true
+			default:
+				continue
+			}
+			if mi, ok := target.(*ssa.MakeInterface); ok {
+				target = mi.X
+			}
+			pt, ok := target.Type().Underlying().(*types.Pointer)
+			if !ok || !hasAny(pt.Elem()) {
+				continue
+			}
+			n++
+			construct := fnQual(fn) + ":decode-into-" + typeShort(pt.Elem())
+			exact := false
+			if isDecode {
+				for _, u := range useNums {
+					if u.Call.Args[0] == call.Call.Args[0] && instrDominates(u, call) {
+						exact = true
+					}
+				}
+			}
+			if exact {
+				r.OK(rule, construct, p.pos(call.Pos()), "UseNumber() precedes Decode on this decoder: numbers stay exact")
+				continue
+			}
+			numeric := false
+			for _, g := range withAnon(fn) {
+				forEachInstr(g, func(in ssa.Instruction) {
+					if ta, ok := in.(*ssa.TypeAssert); ok {
+						if b, ok := ta.AssertedType.Underlying().(*types.Basic); ok && b.Info()&types.IsNumeric != 0 {
+							numeric = true
+						}
+					}
+				})
+			}
+			r.Check(!numeric, rule, construct, p.pos(call.Pos()), "no number is taken out of the untyped value decoded here",
+				"JSON is decoded into an untyped value without UseNumber() and a number is then taken out of it as a float64/integer: integers beyond 2^53 are silently rounded")
+		}
+	}
+	r.Floor(rule, 2)
 }
